@@ -1074,6 +1074,25 @@ func (e *Exec) callByContract(st *State, fc *FuncContract, sig *types.Signature,
 		}
 		res = e.freshResults("r_"+shortName(name), sig)
 	}
+	// declared aliasing: a returned slice that shares its backing array with an argument keeps that argument's origin
+	if len(fc.Aliases) > 0 {
+		n := sig.Results().Len()
+		for i := 0; i < n; i++ {
+			for _, rn := range []string{fmt.Sprintf("result%d", i), sig.Results().At(i).Name(), map[bool]string{true: "result"}[n == 1]} {
+				pn, ok := fc.Aliases[rn]
+				if !ok || rn == "" {
+					continue
+				}
+				if src, ok := env.vals[pn]; ok && len(src.Orig) > 0 {
+					if n == 1 {
+						res.Orig = unionOrig(res.Orig, src.Orig)
+					} else {
+						res.Tuple[i].Orig = unionOrig(res.Tuple[i].Orig, src.Orig)
+					}
+				}
+			}
+		}
+	}
 	// bind results
 	bindResults(env, sig, res)
 	for _, en := range fc.Ensures {
